@@ -12,6 +12,7 @@ ASSUMPTIONS = ['the stream is a fixed skeleton of two threads of two processes (
 OUTSIDE = ['streams other than the skeleton', 'filter lists longer than 2 entries']
 EXPLORE_OPTS = {'max_paths': 60000, 'max_seconds': 900}
 T1, T2, P1, P2 = 0x1d3, 0x2e4, 77, 88
+T3, P3 = 0x3f5, 99            # a thread the thread map does not list: announced in mid-stream by a record of thread T1
 THREADS = [(T1, P1, b'procA'), (T2, P2, b'procB')]
 DBG_MACH, DBG_FSYSTEM, DBG_BSD, DBG_TRACE, DBG_PERF, DBG_DYLD = 1, 3, 4, 7, 0x25, 0x1f
 
@@ -37,6 +38,12 @@ def structures(tier):
         for proc in (None, 'procA', str(P2), 'nosuch', 'procB', 'execd'):
             sts.append({'kind': 'select', 'tid': tidf, 'proc': proc, 'nc': 0, 'ns': 0})
     sts.append({'kind': 'select', 'tid': False, 'proc': 'procB', 'nc': 1, 'ns': 0, 'c': [4]})
+    sts.append({'kind': 'select', 'tid': False, 'proc': str(P3), 'nc': 0, 'ns': 0})
+    sts.append({'kind': 'select', 'tid': True, 'proc': str(P3), 'nc': 1, 'ns': 0, 'c': [4]})
+    sts.append({'kind': 'select', 'tid': True, 'proc': None, 'nc': 1, 'ns': 0, 'c': [7]})
+    for seq in ('traces;traces', 'traces;callstacks'):
+        sts.append({'kind': 'sequence', 'seq': seq, 'classes': [], 'proc': str(P3)})
+        sts.append({'kind': 'sequence', 'seq': seq, 'classes': [4], 'proc': 'execd'})
     sts.append({'kind': 'select', 'tid': False, 'proc': 'execd', 'nc': 1, 'ns': 0, 'c': [1]})
     shards = [1, 3, 4, 7, None]
     for c0 in shards:
@@ -65,6 +72,7 @@ def weight(st):
 
 
 _EXEC_TS = [0]
+_NT_TS = [0]
 
 
 def skeleton(ctx):
@@ -92,6 +100,8 @@ def skeleton(ctx):
         ev('PERF_STK_UData', 0, tid, [ctx.int('frame' + tag), 0, 0, 0])
         ev('PERF_Event', 2, tid, [0x8, 0, 0, 0])
     ev('BSC_read', 2, T2, [0, ctx.int('orphan'), 0, 0])          # an END whose START precedes the dump
+    ev('BSC_getpid', 1, T3, [0, 0, 0, 0])                        # a thread nobody declared yet
+    ev('BSC_getpid', 2, T3, [0, ctx.int('pid3a'), 0, 0])
     sample(T1, 'a')
     ev('DYLD_uuid_map_a', 0, T2, data=bytes(range(1, 17)) + K.to_le(ctx.int('img'), 8) + bytes(8))
     for tid, tag in ((T1, 'x'), (T2, 'y')):
@@ -99,6 +109,10 @@ def skeleton(ctx):
         ev('VFS_LOOKUP', 3, tid, data=K.to_le(ctx.int('vn' + tag), 8) + path + bytes(21))
         ev('BSC_open', 2, tid, [0, ctx.int('fd' + tag), 0, 0])
     ev('BSC_read', 1, T1)
+    ev('TRACE_DATA_NEWTHREAD', 0, T1, [T3, P3, 0, 0])            # T1 announces thread T3 of process P3
+    _NT_TS[0] = ts[0]
+    ev('BSC_getpid', 1, T3, [0, 0, 0, 0])
+    ev('BSC_getpid', 2, T3, [0, ctx.int('pid3b'), 0, 0])
     # process P2 execs: its name changes in mid-stream
     ev('TRACE_DATA_EXEC', 0, T2, [P2, 0, 0, 0])
     ev('TRACE_STRING_EXEC', 0, T2, data=b'execd' + bytes(27))
@@ -178,7 +192,7 @@ def run(ctx, st):
     except Exception as e:      # noqa
         __import__('vxlib.symx.core', fromlist=['x']).proxy_rejected(e)
         ctx.check('C13/no-error', False, '%s: %s' % (type(e).__name__, e)); ctx.reach(); return
-    pmap = {T1: (P1, 'procA'), T2: (P2, 'procB')}
+    pmap = {T1: (P1, 'procA'), T2: (P2, 'procB'), T3: (P3, '')}
 
     def pred(t):
         e = t.ktraces[0]
@@ -189,6 +203,8 @@ def run(ctx, st):
             pid, nm = pmap[e.tid]
             if e.tid == T2 and t.ktraces[-1].timestamp >= _EXEC_TS[0]:
                 nm = 'execd'          # the process the dump declares for the thread at that point of the stream
+            if e.tid == T3 and t.ktraces[-1].timestamp < _NT_TS[0]:
+                pid, nm = -1, ''      # not declared yet
             ok = And(ok, st['proc'] in (str(pid), nm))
         if orig_c or orig_s:
             ok = And(ok, Or(*([(e.eventid >> 24) == c for c in orig_c] + [(e.eventid >> 16) == s for s in orig_s])))
@@ -209,12 +225,14 @@ def run(ctx, st):
 def run_sequence(ctx, st, data):
     p = _parser(ctx)
     p.filter_class = list(st['classes'])
+    p.filter_process = st.get('proc')
     first, second = st['seq'].split(';')
     try:
         a = _run(ctx, p, data, first)
         b = _run(ctx, p, data, second)
         fresh = _parser(ctx)
         fresh.filter_class = list(st['classes'])
+        fresh.filter_process = st.get('proc')
         b_ref = _run(ctx, fresh, data, second)
     except Exception as e:      # noqa
         __import__('vxlib.symx.core', fromlist=['x']).proxy_rejected(e)
